@@ -1,0 +1,27 @@
+package urltree
+
+// LookupDeclaredURL returns the value stored at exactly the node a declared
+// URL denotes (the node `InsertDeclaredURL(url, ...)` writes to), or nil when
+// that node does not exist or holds no value. Unlike `Lookup` it never falls
+// back to a parametric or wildcard node that merely matches `url`.
+func (urlTree *URLTree[T]) LookupDeclaredURL(url string) *T {
+	currentNode := urlTree.Root
+	for _, urlPart := range splitURL(url) {
+		if currentNode == nil {
+			return nil
+		}
+		if urlPart.Value == wildcard {
+			currentNode = currentNode.WildcardChild
+			continue
+		}
+		if _, isPathParam := TryExtractPathParameter(urlPart.Value); isPathParam {
+			currentNode = currentNode.ParametricChild.Child
+			continue
+		}
+		currentNode = currentNode.ConstantChildren[urlPart.Value]
+	}
+	if currentNode == nil {
+		return nil
+	}
+	return currentNode.Value
+}
